@@ -287,6 +287,9 @@ class State:
             elif c < 0:
                 hurt.append((1, c, s, a))
         hurt.sort()
+        if not hurt:
+            # no single symbol drags the bound down (a negative constant does): any substitution may help
+            hurt = [(2, 0, s, a) for s, a in g.t]
         for _k, _c, s, cg in hurt[:3]:
             for f in idx.get(s, ()):
                 cf = f.coef(s)
